@@ -546,7 +546,7 @@ func TestVerif(t *testing.T) {
 			dl := r.DeadlineTime()
 			if !dl.IsZero() {
 				if left := time.Until(dl); left > 0 {
-					dl = time.Now().Add(left / time.Duration(len(fams)-fi+1))
+					dl = time.Now().Add(left * 9 / 10 / time.Duration(len(fams)-fi)) // the deep scenarios need seconds: 10% is kept for them
 				}
 			}
 			res := bfs.Explore(bfs.Config[cqOp]{Name: "bfs:" + fam.name, Ops: fam.ops(), Depth: depth, Run: runCQHistory(r, fam, st, -2),
